@@ -291,6 +291,8 @@ def vc_reset(ctx):
                 whole = not (set(iter_adaptors(item[1] if item and item[0] == 'item' else ('top',))) & LOSSY_ADAPTORS)
                 if not whole:
                     errs.append('the scan does not range over all of our entries')
+                if not must_pass_unless_noop(facts, body, it, [bb], {'other': (2, ()), 'self': (1, ())}):
+                    errs.append('a path through reset_remove avoids the scan that forgets the covered entries')
                 ctx.check(not errs, 'reset_remove', body, 'our entries kept exactly when the argument clock does not cover them (scan of self.dots)',
                           errs[0] if errs else '', line=c.line, details=det)
                 return
@@ -328,6 +330,16 @@ def vc_reset(ctx):
         errs.append('the loop does not range over every dot of the argument clock')
     if not key_ok:
         errs.append('the removed key is not the actor of the compared dot')
+    from .loops import loop_of_block
+    lp_ = loop_of_block(it, bb)
+    head_ = lp_.head if lp_ is not None else fr[0]
+    if not must_pass_unless_noop(facts, body, it, [head_], {'other': (2, ()), 'self': (1, ())}):
+        errs.append('a path through reset_remove avoids the loop over the argument clock (covered entries survive on that path)')
+    others = [b_ for b_, c_ in _dots_writes(it, ('remove', 'remove_entry', 'retain', 'retain_mut', 'clear', 'insert', 'extend', 'append', 'split_off'))
+              if head_ not in it.dom.get(b_, ())]
+    if others:
+        errs.append('self.dots is also changed outside the per-dot loop (line %d): a second way of forgetting entries the rule does not decide'
+                    % block_line(it, others[0]))
     if errs:
         ctx.fail('reset_remove', body, errs[0], line=c.line, details=det)
     else:
@@ -699,6 +711,13 @@ def vc_glb(ctx):
                    and w.val[0] == 'post' and call_name(w.val[1]) == 'retain' for w in it.muts.values())
         if not stored:
             ctx.fail('glb/store', body, 'the filtered entries are not stored back into self.dots')
+        else:
+            sites = [k_[0] for k_, w in it.writes.items() if loc_target(it, w.loc) and loc_target(it, w.loc)[:2] == (1, ('dots',)) and w.kind == 'assign'] \
+                + [k_[0] for k_, w in it.muts.items() if loc_target(it, w.loc) and loc_target(it, w.loc)[:2] == (1, ('dots',)) and w.kind == 'call'
+                   and w.val[0] == 'post' and call_name(w.val[1]) == 'retain']
+            # (an empty `other` is no excuse: the minimum with nothing is nothing)
+            if not must_pass_unless_noop(facts, body, it, sorted(set(sites)), {'self': (1, ())}):
+                ctx.fail('glb/store', body, 'a path through glb avoids storing the pointwise minimum back into self.dots')
 
 
 @rule('VC-VALIDATE', {
